@@ -340,16 +340,203 @@ Proof.
   - right. eapply IH; eauto.
 Qed.
 
-Lemma insert_noop s seqNr : forall fuel i,
-  Rep (sc_sl s) (sc_n s) (sc_live s) -> Forall (fun c => seqNr <= fst c) (sc_live s) ->
-  Z.of_nat fuel <= i <= sc_n s -> sc_insert s seqNr i fuel = Ok s.
+Lemma map_takeZ {A B} (f : A -> B) k l : map f (takeZ k l) = takeZ k (map f l).
 Proof.
-  induction fuel as [|fuel IH]; intros i R F Hi; [reflexivity|].
-  cbn [sc_insert]. pose proof R as (H1 & _).
-  destruct (nthZ_some (sc_live s) (i - 1) ltac:(lia)) as (x & Hx).
-  rewrite (rep_get _ _ _ _ _ _ R Hx) by lia. cbn [bind].
-  pose proof (proj1 (Forall_forall _ _) F x (nthZ_In _ _ _ Hx)) as Hge. cbn in Hge.
-  replace (fst x <? seqNr) with false by lia. apply IH; auto. lia.
+  revert k; induction l as [|a l IH]; intros k; [reflexivity|].
+  cbn [takeZ map]. destruct (k <=? 0); [reflexivity|]. cbn [map]. f_equal. apply IH.
+Qed.
+
+Lemma map_dropZ {A B} (f : A -> B) k l : map f (dropZ k l) = dropZ k (map f l).
+Proof.
+  revert k; induction l as [|a l IH]; intros k; [reflexivity|].
+  cbn [dropZ map]. destruct (k <=? 0); [reflexivity|]. apply IH.
+Qed.
+
+Lemma takeZ_snoc {A} (l : list A) k x : 0 <= k -> nthZ k l = Some x -> takeZ (k + 1) l = takeZ k l ++ [x].
+Proof.
+  revert k; induction l as [|a l IH]; intros k Hk H; [discriminate|].
+  cbn [nthZ] in H. destruct (k <? 0) eqn:E; [lia|]. cbn [takeZ].
+  destruct (k =? 0) eqn:E0.
+  - inversion H; subst. replace (k + 1 <=? 0) with false by lia. replace (k <=? 0) with true by lia.
+    rewrite takeZ_nonpos by lia. reflexivity.
+  - replace (k + 1 <=? 0) with false by lia. replace (k <=? 0) with false by lia.
+    replace (k + 1 - 1) with (k - 1 + 1) by lia. rewrite (IH (k - 1)) by (try lia; exact H). reflexivity.
+Qed.
+
+Lemma dropZ_cons_nth {A} (l : list A) k x : 0 <= k -> nthZ k l = Some x -> dropZ k l = x :: dropZ (k + 1) l.
+Proof.
+  revert k; induction l as [|a l IH]; intros k Hk H; [discriminate|].
+  cbn [nthZ] in H. destruct (k <? 0) eqn:E; [lia|]. cbn [dropZ].
+  destruct (k =? 0) eqn:E0.
+  - inversion H; subst. replace (k <=? 0) with true by lia. replace (k + 1 <=? 0) with false by lia.
+    replace (k + 1 - 1) with 0 by lia. rewrite dropZ_0. reflexivity.
+  - replace (k <=? 0) with false by lia. replace (k + 1 <=? 0) with false by lia.
+    replace (k + 1 - 1) with (k - 1 + 1) by lia. apply IH; [lia|exact H].
+Qed.
+
+Lemma filter_all {A} (f : A -> bool) l : Forall (fun x => f x = true) l -> filter f l = l.
+Proof. induction 1; cbn; [reflexivity|]. rewrite H. f_equal. assumption. Qed.
+
+Lemma filter_none {A} (f : A -> bool) l : Forall (fun x => f x = false) l -> filter f l = [].
+Proof. induction 1; cbn; [reflexivity|]. rewrite H. assumption. Qed.
+
+Lemma incr_insert_mid a x b :
+  incr (a ++ b) = true -> Forall (fun y => y < x) a -> Forall (fun y => x < y) b -> incr (a ++ x :: b) = true.
+Proof.
+  induction a as [|a0 a IH]; intros H Fa Fb.
+  - cbn [app] in *. destruct b as [|y b]; [reflexivity|]. inversion Fb; subst. cbn [incr]. apply andb_true_iff. split; [lia|exact H].
+  - inversion Fa; subst. cbn [app] in *. specialize (IH (incr_tail _ _ H) H3 Fb).
+    destruct a as [|a1 a].
+    + cbn [app] in *. cbn [incr]. apply andb_true_iff. split; [lia|exact IH].
+    + cbn [app incr] in *. apply andb_true_iff in H as [H1 _]. apply andb_true_iff. split; [exact H1|exact IH].
+Qed.
+
+(** copy(s[i+1:n+1], s[i:n]): the live elements i.. move up by one *)
+Lemma rep_copy_up {A} site (sl : slice A) n live i :
+  Rep sl n live -> 0 <= i < n -> n < slen sl ->
+  exists sl', sl_copy site sl (i + 1) (n + 1) i n = Ok sl' /\ Rep sl' (n + 1) (takeZ (i + 1) live ++ dropZ i live)
+              /\ slen sl' = slen sl /\ scap sl' = scap sl.
+Proof.
+  intros R Hi Hn. pose proof R as (H1 & H2 & H3 & H4). pose proof (lenZ_nonneg live).
+  unfold sl_copy, slice_ok.
+  replace ((0 <=? i + 1) && (i + 1 <=? n + 1) && (n + 1 <=? scap sl) && ((0 <=? i) && (i <=? n) && (n <=? scap sl)))
+    with true by lia.
+  eexists; split; [reflexivity|]. unfold scap in *. cbn [arr slen].
+  replace (Z.min (n + 1 - (i + 1)) (n - i)) with (n - i) by lia.
+  assert (L : lenZ (move (arr sl) (i + 1) i (n - i)) = lenZ (arr sl)).
+  { unfold move. rewrite !lenZ_app, !lenZ_takeZ, !lenZ_dropZ by lia. lia. }
+  split; [|split; [reflexivity|exact L]].
+  assert (Ll : lenZ (takeZ (i + 1) live ++ dropZ i live) = n + 1).
+  { rewrite lenZ_app, lenZ_takeZ, lenZ_dropZ by lia. lia. }
+  rsplit; cbn [arr slen]; try lia.
+  unfold move. rewrite (Rep_arr sl n live R) at 1 2.
+  rewrite (takeZ_app_l (i + 1) live) by lia. rewrite (dropZ_app_l i live) by lia.
+  assert (Ld : lenZ (dropZ i live) = n - i) by (rewrite lenZ_dropZ by lia; lia).
+  rewrite (takeZ_app_l (n - i) (dropZ i live)) by lia. rewrite (takeZ_all (n - i) (dropZ i live)) by lia.
+  rewrite app_assoc. rewrite <- Ll. apply takeZ_app_exact.
+Qed.
+
+(** copy(s[0:i-1], s[1:i]): the live elements 1..i-1 move down by one, the oldest goes *)
+Lemma rep_copy_down1 {A} site (sl : slice A) n live i :
+  Rep sl n live -> 1 <= i <= n ->
+  exists sl', sl_copy site sl 0 (i - 1) 1 i = Ok sl' /\ Rep sl' n (takeZ (i - 1) (dropZ 1 live) ++ dropZ (i - 1) live)
+              /\ slen sl' = slen sl /\ scap sl' = scap sl.
+Proof.
+  intros R Hi. pose proof R as (H1 & H2 & H3 & H4). pose proof (lenZ_nonneg live).
+  unfold sl_copy, slice_ok.
+  replace ((0 <=? 0) && (0 <=? i - 1) && (i - 1 <=? scap sl) && ((0 <=? 1) && (1 <=? i) && (i <=? scap sl)))
+    with true by lia.
+  eexists; split; [reflexivity|]. unfold scap in *. cbn [arr slen].
+  replace (Z.min (i - 1 - 0) (i - 1)) with (i - 1) by lia.
+  assert (L : lenZ (move (arr sl) 0 1 (i - 1)) = lenZ (arr sl)).
+  { unfold move. rewrite !lenZ_app, !lenZ_takeZ, !lenZ_dropZ by lia. lia. }
+  split; [|split; [reflexivity|exact L]].
+  assert (Ld1 : lenZ (dropZ 1 live) = n - 1) by (rewrite lenZ_dropZ by lia; lia).
+  assert (Ll : lenZ (takeZ (i - 1) (dropZ 1 live) ++ dropZ (i - 1) live) = n).
+  { rewrite lenZ_app, lenZ_takeZ by lia. rewrite Ld1. rewrite (lenZ_dropZ (i - 1)) by lia. lia. }
+  rsplit; cbn [arr slen]; try lia.
+  unfold move. rewrite (takeZ_nonpos 0) by lia. cbn [app].
+  rewrite (Rep_arr sl n live R) at 1 2.
+  rewrite (dropZ_app_l 1 live) by lia. rewrite (takeZ_app_l (i - 1) (dropZ 1 live)) by lia.
+  replace (0 + (i - 1)) with (i - 1) by lia. rewrite (dropZ_app_l (i - 1) live) by lia.
+  rewrite app_assoc. rewrite <- Ll at 1. apply takeZ_app_exact.
+Qed.
+
+Definition ins_at (p seqNr : Z) (live : list (Z * Z)) : list (Z * Z) := takeZ p live ++ (seqNr, 1) :: dropZ p live.
+
+Lemma incr_ins_at p seqNr live :
+  incr (map fst live) = true ->
+  Forall (fun c => fst c < seqNr) (takeZ p live) -> Forall (fun c => seqNr < fst c) (dropZ p live) ->
+  incr (map fst (ins_at p seqNr live)) = true.
+Proof.
+  intros Hi F1 F2. unfold ins_at. rewrite map_app. cbn [map fst]. apply incr_insert_mid.
+  - rewrite <- map_app, takeZ_dropZ. exact Hi.
+  - apply Forall_forall. intros y Hy. apply in_map_iff in Hy as (c & <- & Hc). exact (proj1 (Forall_forall _ _) F1 c Hc).
+  - apply Forall_forall. intros y Hy. apply in_map_iff in Hy as (c & <- & Hc). exact (proj1 (Forall_forall _ _) F2 c Hc).
+Qed.
+
+Lemma ins_at_ins_count p seqNr live :
+  Forall (fun c => fst c < seqNr) (takeZ p live) -> Forall (fun c => seqNr < fst c) (dropZ p live) ->
+  ins_count seqNr live = ins_at p seqNr live.
+Proof.
+  intros F1 F2. unfold ins_count, ins_at. rewrite <- (takeZ_dropZ p live) at 1 2. rewrite !filter_app.
+  rewrite (filter_all (fun c => fst c <? seqNr) (takeZ p live)) by (eapply Forall_impl; [|exact F1]; cbn; intros; lia).
+  rewrite (filter_none (fun c => fst c <? seqNr) (dropZ p live)) by (eapply Forall_impl; [|exact F2]; cbn; intros; lia).
+  rewrite (filter_none (fun c => seqNr <? fst c) (takeZ p live)) by (eapply Forall_impl; [|exact F1]; cbn; intros; lia).
+  rewrite (filter_all (fun c => seqNr <? fst c) (dropZ p live)) by (eapply Forall_impl; [|exact F2]; cbn; intros; lia).
+  rewrite app_nil_r. reflexivity.
+Qed.
+
+(** the insertion loop of add (number inside the window and not stored) *)
+Lemma insert_loop s seqNr :
+  sc_inv s -> 0 < sc_n s -> Forall (fun c => fst c <> seqNr) (sc_live s) -> forall fuel i,
+  Z.of_nat fuel = i -> i <= sc_n s - 1 -> Forall (fun c => seqNr < fst c) (dropZ i (sc_live s)) ->
+  exists s', sc_insert s seqNr i fuel = Ok s' /\ sc_w s' = sc_w s /\
+    ((s' = s /\ Forall (fun c => seqNr < fst c) (sc_live s)) \/
+     (exists p, 1 <= p /\ Forall (fun c => fst c < seqNr) (takeZ p (sc_live s))
+                /\ Forall (fun c => seqNr < fst c) (dropZ p (sc_live s)) /\ sc_inv s' /\
+                sc_live s' = if sc_n s <? sc_w s then ins_at p seqNr (sc_live s) else dropZ 1 (ins_at p seqNr (sc_live s)))).
+Proof.
+  intros I Hn0 Hns. pose proof (sc_rep s I) as R. pose proof I as (Hw & Hn & Hl & Hc & Hi). pose proof R as (RL & _).
+  induction fuel as [|fuel IH]; intros i Ef Hi1 F.
+  - exists s. split; [reflexivity|]. split; [reflexivity|]. left. split; [reflexivity|].
+    replace i with 0 in F by lia. rewrite dropZ_0 in F. exact F.
+  - cbn [sc_insert].
+    destruct (nthZ_some (sc_live s) (i - 1) ltac:(lia)) as (x & Hx).
+    rewrite (rep_get _ _ _ _ _ _ R Hx) by lia. cbn [bind].
+    assert (Hk : 0 <= i - 1) by lia.
+    pose proof (takeZ_snoc _ _ _ Hk Hx) as Ets. pose proof (dropZ_cons_nth _ _ _ Hk Hx) as Eds.
+    replace (i - 1 + 1) with i in Ets, Eds by lia.
+    destruct (fst x <? seqNr) eqn:Ex.
+    + (* insert between i-1 and i *)
+      assert (F1 : Forall (fun c => fst c < seqNr) (takeZ i (sc_live s))).
+      { rewrite Ets.
+        assert (Hinc : incr (map fst (takeZ (i - 1) (sc_live s) ++ [x])) = true).
+        { rewrite <- Ets, map_takeZ. apply incr_takeZ. exact Hi. }
+        rewrite map_app in Hinc. cbn [map] in Hinc. pose proof (incr_lt_last _ _ Hinc) as Fl.
+        apply Forall_app. split; [|constructor; [lia|constructor]].
+        apply Forall_forall. intros c0 Hc0. pose proof (proj1 (Forall_forall _ _) Fl (fst c0) (in_map fst _ _ Hc0)) as Hlt. cbn in Hlt. lia. }
+      assert (Hinc' : incr (map fst (ins_at i seqNr (sc_live s))) = true) by (apply incr_ins_at; assumption).
+      destruct (sc_n s <? sc_w s) eqn:Efull.
+      * rewrite (u32_small (sc_n s + 1)) by lia.
+        destruct (rep_copy_up "seqCounters.add:slice" (sc_sl s) _ _ i R ltac:(lia) ltac:(lia)) as (sl1 & Hc1 & R1 & L1 & L2).
+        rewrite Hc1. cbn [bind].
+        destruct (rep_set_at "seqCounters.add:index" sl1 _ _ i (seqNr, 1) R1 ltac:(lia)) as (sl2 & Hs2 & R2 & L3 & L4).
+        rewrite Hs2. cbn [bind]. eexists; split; [reflexivity|]. split; [reflexivity|]. right. exists i.
+        split; [lia|]. split; [exact F1|]. split; [exact F|].
+        assert (Eset : setZ (takeZ (i + 1) (sc_live s) ++ dropZ i (sc_live s)) i (seqNr, 1) = ins_at i seqNr (sc_live s)).
+        { unfold setZ, ins_at. assert (Lt : lenZ (takeZ (i + 1) (sc_live s)) = i + 1) by (rewrite lenZ_takeZ by lia; lia).
+          rewrite (takeZ_app_l i) by lia. rewrite takeZ_takeZ. replace (Z.min i (i + 1)) with i by lia.
+          rewrite (dropZ_app_r (i + 1)) by lia. rewrite Lt. replace (i + 1 - (i + 1)) with 0 by lia. rewrite dropZ_0. reflexivity. }
+        rewrite Eset in R2. destruct R2 as (Q1 & Q2 & Q3 & Q4).
+        split.
+        -- unfold sc_inv, sc_live. cbn [sc_sl sc_n sc_w]. rewrite Q4.
+           split; [lia|]. split; [lia|]. split; [lia|]. split; [lia|]. exact Hinc'.
+        -- unfold sc_live at 1. cbn [sc_sl sc_n]. exact Q4.
+      * destruct (rep_copy_down1 "seqCounters.add:slice" (sc_sl s) _ _ i R ltac:(lia)) as (sl1 & Hc1 & R1 & L1 & L2).
+        rewrite Hc1. cbn [bind].
+        destruct (rep_set_at "seqCounters.add:index" sl1 _ _ (i - 1) (seqNr, 1) R1 ltac:(lia)) as (sl2 & Hs2 & R2 & L3 & L4).
+        rewrite Hs2. cbn [bind]. eexists; split; [reflexivity|]. split; [reflexivity|]. right. exists i.
+        split; [lia|]. split; [exact F1|]. split; [exact F|].
+        assert (Ld1 : lenZ (dropZ 1 (sc_live s)) = sc_n s - 1) by (rewrite lenZ_dropZ by lia; lia).
+        assert (Eset : setZ (takeZ (i - 1) (dropZ 1 (sc_live s)) ++ dropZ (i - 1) (sc_live s)) (i - 1) (seqNr, 1)
+                       = dropZ 1 (ins_at i seqNr (sc_live s))).
+        { unfold setZ, ins_at. assert (Lt : lenZ (takeZ (i - 1) (dropZ 1 (sc_live s))) = i - 1) by (rewrite lenZ_takeZ by lia; lia).
+          rewrite (takeZ_app_l (i - 1)) by lia. rewrite (takeZ_all (i - 1) (takeZ (i - 1) (dropZ 1 (sc_live s)))) by lia.
+          rewrite (dropZ_app_r (i - 1 + 1)) by lia. rewrite Lt. replace (i - 1 + 1 - (i - 1)) with 1 by lia.
+          rewrite dropZ_dropZ by lia. replace (1 + (i - 1)) with i by lia.
+          assert (Lti : lenZ (takeZ i (sc_live s)) = i) by (rewrite lenZ_takeZ by lia; lia).
+          rewrite (dropZ_app_l 1) by lia. rewrite dropZ_takeZ by lia. reflexivity. }
+        rewrite Eset in R2. destruct R2 as (Q1 & Q2 & Q3 & Q4).
+        split.
+        -- unfold sc_inv, sc_live, with_sl. cbn [sc_sl sc_n sc_w]. rewrite Q4.
+           split; [lia|]. split; [lia|]. split; [lia|]. split; [lia|].
+           rewrite map_dropZ. apply incr_dropZ. exact Hinc'.
+        -- unfold sc_live at 1, with_sl. cbn [sc_sl sc_n]. exact Q4.
+    + (* keep looking further down *)
+      destruct (IH (i - 1) ltac:(lia) ltac:(lia)) as (s' & Hs' & Q); [|eauto].
+      rewrite Eds. constructor; [|exact F].
+      pose proof (proj1 (Forall_forall _ _) Hns x (nthZ_In _ _ _ Hx)) as Hne. cbn in Hne. lia.
 Qed.
 
 Lemma exists_last_Z {A} (l : list A) : 0 < lenZ l -> exists l' x, l = l' ++ [x].
@@ -378,12 +565,12 @@ Proof.
   rewrite u32_small by lia. lia.
 Qed.
 
-(** [add] under its precondition: no panic, invariant kept, and the live counters change as in the list spec *)
+(** [add]: no panic, invariant kept, and the live counters change as in the list spec *)
 Lemma sc_add_spec s n :
-  sc_inv s -> sc_add_pre s n = true ->
+  sc_inv s ->
   exists s', sc_add s n = Ok s' /\ sc_inv s' /\ sc_live s' = spec_add (sc_w s) (sc_live s) n /\ sc_w s' = sc_w s.
 Proof.
-  intros I P. pose proof (sc_rep s I) as R. pose proof I as (Hw & Hn & Hl & Hc & Hi).
+  intros I. pose proof (sc_rep s I) as R. pose proof I as (Hw & Hn & Hl & Hc & Hi).
   pose proof R as (RL & _).
   unfold sc_add. destruct (sc_n s =? 0) eqn:E0.
   - (* empty *)
@@ -473,19 +660,27 @@ Proof.
         split; [lia|]. split; [lia|]. split; [lia|]. split; [lia|]. exact Hi.
       - unfold sc_live. cbn [sc_n sc_sl]. exact Q4.
       - reflexivity. }
-    (* not stored: only allowed below the smallest stored number, then nothing happens *)
+    (* not stored: inserted at its place, or ignored when below everything stored *)
     rewrite Hm.
-    assert (Hle : n <= first_seq (sc_live s)).
-    { assert (Hne : fst cmax <> n).
-      { intros Heq. rewrite EL, existsb_app in Hm. cbn [existsb] in Hm.
-        apply orb_false_iff in Hm as [_ Hm]. lia. }
-      unfold sc_add_pre, sc_between in P. rewrite Elast, Hm in P. cbn [negb] in P.
-      destruct (first_seq (sc_live s) <? n) eqn:Ef; [|lia].
-      replace (0 <? sc_n s) with true in P by lia.
-      replace (sc_minFromMax s (fst cmax) <=? n) with true in P by lia.
-      replace (n <? fst cmax) with true in P by lia. discriminate. }
-    rewrite (insert_noop s n (Z.to_nat (sc_n s - 1)) (sc_n s - 1) R (incr_all_ge _ Hi n Hle)) by lia.
-    eexists; split; [reflexivity|]. auto.
+    assert (Hns : Forall (fun c => fst c <> n) (sc_live s)).
+    { apply Forall_forall. intros c Hc' Heq. assert (existsb (fun c => fst c =? n) (sc_live s) = true); [|congruence].
+      apply existsb_exists. exists c. split; [exact Hc'|lia]. }
+    assert (Hcm : n < fst cmax).
+    { pose proof (proj1 (Forall_forall _ _) Hns cmax ltac:(rewrite EL; apply in_or_app; right; left; reflexivity)) as Hne. cbn in Hne. lia. }
+    destruct (insert_loop s n I Hn0 Hns (Z.to_nat (sc_n s - 1)) (sc_n s - 1) ltac:(lia) ltac:(lia)) as (s' & Hs' & Ws' & Hcase).
+    { rewrite EL, <- Ll', dropZ_app_exact. constructor; [exact Hcm|constructor]. }
+    rewrite Hs'. exists s'. split; [reflexivity|].
+    assert (Hfirst : exists c0 rest, sc_live s = c0 :: rest).
+    { destruct (sc_live s) as [|c0 rest]; [cbn in RL; lia|eauto]. }
+    destruct Hfirst as (c0 & rest & Ec0).
+    destruct Hcase as [[-> Fall]|(p & Hp & F1 & F2 & Is' & Ls')].
+    + split; [exact I|]. split; [|reflexivity].
+      replace (n <? first_seq (sc_live s)) with true; [reflexivity|].
+      rewrite Ec0 in Fall |- *. inversion Fall; subst. cbn [first_seq]. lia.
+    + split; [exact Is'|]. split; [|exact Ws'].
+      replace (n <? first_seq (sc_live s)) with false.
+      * rewrite RL, (ins_at_ins_count p n (sc_live s) F1 F2). exact Ls'.
+      * rewrite Ec0 in F1 |- *. cbn [takeZ] in F1. replace (p <=? 0) with false in F1 by lia. inversion F1; subst. cbn [first_seq]. lia.
 Qed.
 
 (** * Refutations: concrete witnesses evaluated on the model (each is replayed on the real structs
@@ -509,25 +704,13 @@ Proof.
   - split; vm_compute; reflexivity.
 Qed.
 
-(** inserting 6 into [5,7]: the entry of 5 is overwritten *)
-Lemma counters_refine_refuted :
-  exists s n s', sc_adds (sc_new 4) [5; 7] = Ok s /\ sc_inv s /\ sc_between s n = true /\
-                 sc_add s n = Ok s' /\ sc_live s = [(5, 1); (7, 1)] /\ sc_live s' = [(6, 1); (7, 1)].
+(** inserting 6 into [5,7] and into [5,7,9]: before ddde9b0 the entry of 5 was overwritten ([6,7], [6,7,7]) *)
+Lemma counters_insert_repaired :
+  exists s s' t t', sc_adds (sc_new 4) [5; 7] = Ok s /\ sc_add s 6 = Ok s' /\ sc_live s' = [(5, 1); (6, 1); (7, 1)] /\
+                    sc_adds (sc_new 8) [5; 7; 9] = Ok t /\ sc_add t 6 = Ok t' /\ sc_live t' = [(5, 1); (6, 1); (7, 1); (9, 1)].
 Proof.
-  exists (sc_of 4 [5; 7]), 6, (sc_of 4 [5; 7; 6]). split; [vm_compute; reflexivity|]. split.
-  - apply sc_invb_ok. vm_compute. reflexivity.
-  - repeat split; vm_compute; reflexivity.
-Qed.
-
-(** with three entries the defect also breaks the ordering: 6 into [5,7,9] gives [6,7,7] *)
-Lemma counters_insert_breaks_inv :
-  exists s n s', sc_inv s /\ sc_add s n = Ok s' /\ ~ sc_inv s'.
-Proof.
-  exists (sc_of 8 [5; 7; 9]), 6, (sc_of 8 [5; 7; 9; 6]). split.
-  - apply sc_invb_ok. vm_compute. reflexivity.
-  - split; [vm_compute; reflexivity|]. intros (_ & _ & _ & _ & H).
-    assert (E : incr (map fst (sc_live (sc_of 8 [5; 7; 9; 6]))) = false) by (vm_compute; reflexivity).
-    rewrite E in H. discriminate.
+  exists (sc_of 4 [5; 7]), (sc_of 4 [5; 7; 6]), (sc_of 8 [5; 7; 9]), (sc_of 8 [5; 7; 9; 6]).
+  repeat split; vm_compute; reflexivity.
 Qed.
 
 (** seqCounters.resize to a smaller window: before 502773f _nrCounters stayed above len, now the newest stay *)
@@ -540,18 +723,6 @@ Proof.
 Qed.
 
 (** ** drop, resize, newFullCounter, fullRange *)
-Lemma map_takeZ {A B} (f : A -> B) k l : map f (takeZ k l) = takeZ k (map f l).
-Proof.
-  revert k; induction l as [|a l IH]; intros k; [reflexivity|].
-  cbn [takeZ map]. destruct (k <=? 0); [reflexivity|]. cbn [map]. f_equal. apply IH.
-Qed.
-
-Lemma map_dropZ {A B} (f : A -> B) k l : map f (dropZ k l) = dropZ k (map f l).
-Proof.
-  revert k; induction l as [|a l IH]; intros k; [reflexivity|].
-  cbn [dropZ map]. destruct (k <=? 0); [reflexivity|]. apply IH.
-Qed.
-
 Lemma incr_remove {A} (f : A -> Z) i l :
   0 <= i -> incr (map f l) = true -> incr (map f (takeZ i l ++ dropZ (i + 1) l)) = true.
 Proof.
@@ -1082,14 +1253,14 @@ Ltac fin_add :=
          |do 5 (split; [reflexivity|]); intros _; cbn [g_bufs]; rewrite lookup_update_same; discriminate].
 
 Lemma gen_add_inv g name it :
-  gen_inv g -> item_ok it -> gen_add_pre g name it = true ->
+  gen_inv g -> item_ok it ->
   exists g' n ok, gen_addSegmentData g name it = Ok (g', n, ok) /\ gen_inv g'
     /\ g_latest g' = g_latest g /\ g_w g' = g_w g /\ g_ntracks g' = g_ntracks g
     /\ g_started g' = g_started g /\ g_shifted g' = g_shifted g
     /\ (g_shifted g && negb (i_shifted it) = false -> lookup name (g_bufs g') <> None).
 Proof.
-  intros I Hit P. pose proof I as (Ic & Ew & Hw & Fb & Hl).
-  unfold gen_addSegmentData, gen_add_pre in *.
+  intros I Hit. pose proof I as (Ic & Ew & Hw & Fb & Hl).
+  unfold gen_addSegmentData in *.
   destruct (g_shifted g && negb (i_shifted it)) eqn:Esh.
   { do 3 eexists; split; [reflexivity|]. split; [exact I|]. do 5 (split; [reflexivity|]). intros ?; congruence. }
   fold (buf_of g name) in *. destruct (buf_of_inv g name I) as (Ib & Sb).
@@ -1098,7 +1269,7 @@ Proof.
   assert (Fb' : Forall (fun kb => sdb_inv (snd kb) /\ b_size (snd kb) = g_w g) (update name b' (g_bufs g))).
   { apply update_Forall; [|exact Fb]. intros k. cbn [snd]. split; [exact Ib'|lia]. }
   destruct ok; cbn [negb].
-  - destruct (sc_add_spec _ _ Ic P) as (c' & Hc & Ic' & _ & Wc). rewrite Hc. cbn [bind].
+  - destruct (sc_add_spec _ (i_seq it) Ic) as (c' & Hc & Ic' & _ & Wc). rewrite Hc. cbn [bind].
     destruct (g_started g).
     + destruct (sc_newFull_ok c' (g_ntracks g) (g_latest g) Ic') as (n & Hn). rewrite Hn. cbn [bind].
       do 3 eexists; split; [reflexivity|]. fin_add.
@@ -1273,9 +1444,9 @@ Proof.
   unfold chan_pre in P. cbn [up_name up_item] in P. unfold chan_received.
   destruct (find_track name (ch_tracks c)) as [tr|] eqn:Eft.
   2:{ eexists; split; [reflexivity|]. split; [split; assumption|reflexivity]. }
-  apply andb_true_iff in P as [P Pst]. apply andb_true_iff in P as [Pit Padd].
+  apply andb_true_iff in P as [Pit Pst].
   pose proof (item_okb_ok _ Pit) as Hit.
-  destruct (gen_add_inv _ name it Ig Hit Padd) as (g1 & n & ok & Ha & I1 & L1 & W1 & N1 & S1 & Sh1 & Lk1).
+  destruct (gen_add_inv _ name it Ig Hit) as (g1 & n & ok & Ha & I1 & L1 & W1 & N1 & S1 & Sh1 & Lk1).
   unfold chan_mid in Pst. rewrite Ha in *. cbn [bind] in *.
   assert (Hmid : exists g2 pub, (if n =? 0 then Ok (g1, None) else gen_generate g1 n (chan_asets c)) = Ok (g2, pub)
                    /\ gen_inv g2 /\ g_bufs g2 = g_bufs g1 /\ g_shifted g2 = g_shifted g1
@@ -1310,14 +1481,14 @@ Proof.
   destruct (sl_get_arr "channel.receivedSegData:index" (b_sl b) 0 ltac:(lia) ltac:(lia)) as (i0 & N0 & G0).
   destruct (sl_get_arr "channel.receivedSegData:index" (b_sl b) 1 ltac:(lia) ltac:(lia)) as (i1 & N1' & G1).
   rewrite G0, G1. cbn [bind]. rewrite N0, N1' in Pst.
-  destruct (negb (i_seq i1 =? u32 (i_seq i0 + 1)) || negb (i_dur i1 =? i_dur i0)) eqn:Econs.
+  destruct (negb (i_seq i1 =? u32 (i_seq i0 + 1)) || negb (i_dur i1 =? i_dur i0) || (i_dur i1 =? 0)) eqn:Econs.
   { destruct (gen_drop_inv g2 (i_seq i0) I2) as (g3 & Hd & I3 & L3 & _ & _ & _ & Sh3). rewrite Hd. cbn [bind].
     eexists; split; [reflexivity|]. cbn [o_chan o_pub]. change (ch_gen (with_gen (with_gen c g2) g3)) with g3.
     split; [|rewrite L3; exact HL]. split; [exact I3|].
     change (ch_gen (with_gen (with_gen c g2) g3)) with g3. rewrite Sh3, Sh2, Sh1, Hns. discriminate. }
   (* the channel starts *)
   rewrite Eft in *.
-  apply andb_true_iff in Pst as [Pdur Pres].
+  rename Pst into Pres.
   assert (Hdur : i_dur i1 <> 0) by lia.
   unfold go_div, go_rem. replace (i_dur i1 =? 0) with false by lia. cbn [bind].
   destruct (derive_ok g2 (ch_tracks c)) as (Db & Df). rewrite Db, Df. cbn [bind].
@@ -1424,12 +1595,23 @@ Lemma jump_run_repaired :
   exists c', chan_run c ups = Ok c' /\ list_eqb Z.eqb (map fst (sc_live (g_cnt (ch_gen c')))) [100; 101] = true.
 Proof. split; [apply run_preb_ok; vm_compute; reflexivity|]. apply run_ok_and_ok. vm_compute. reflexivity. Qed.
 
-(** C17_safe as stated (no arrival order stops the receiver) is still false: two consecutive
-    segments of the master track with duration 0 make receivedSegData divide by masterSegDuration = 0 *)
-Lemma safe_refuted :
-  exists c ups, chan_inv c /\ chan_run c ups = Panic "channel.receivedSegData:div".
+(** two consecutive master segments of duration 0: before ff19d12 receivedSegData divided by
+    masterSegDuration = 0; now they do not start the channel and the run goes on *)
+Lemma zero_duration_repaired :
+  let c := chan_with [[0]] 30 [mkTrack 0 true true 90000] in
+  let ups := [mkUp 0 (mkItem 1 0 0 false); mkUp 0 (mkItem 2 0 0 false); mkUp 0 (mkItem 3 0 0 false)] in
+  run_pre c ups /\ exists c', chan_run c ups = Ok c' /\ negb (g_started (ch_gen c')) = true.
+Proof. split; [apply run_preb_ok; vm_compute; reflexivity|]. apply run_ok_and_ok. vm_compute. reflexivity. Qed.
+
+(** what is left of "C17_safe is false": a start window that wraps to 0 in uint32
+    (timeShiftBufferDepthS * timescale / duration + 2 = 2^32 + 1): timeShiftBufferDepth 65537 s, timescale
+    65535, segments of one tick. Only at model level: with the even timescales of real tracks the
+    product cannot be 2^32 - 1. *)
+Lemma safe_window_refuted :
+  exists c ups, chan_inv c /\ chan_run c ups = Panic "segDataBuffer.add:index".
 Proof.
-  exists (chan_with [[0]] 30 [mkTrack 0 true true 90000]), [mkUp 0 (mkItem 1 0 0 false); mkUp 0 (mkItem 2 0 0 false)].
+  exists (chan_with [[0]] 65537 [mkTrack 0 true true 65535]),
+         [mkUp 0 (mkItem 1 1 1 false); mkUp 0 (mkItem 2 2 1 false); mkUp 0 (mkItem 3 3 1 false)].
   split; [apply chan_with_inv|vm_compute; reflexivity].
 Qed.
 
